@@ -399,6 +399,27 @@ func RulePanic(r *Report, p *Program, tier string, wireTypes map[string]bool) {
 					}
 				case *ssa.Slice:
 					add(classifySlice(p, fn, x))
+				case *ssa.SliceToArrayPointer:
+					// [N]T(s) panics when len(s) < N
+					st := panicSite{fn: fn, instr: x, kind: "slice", rule: "P1"}
+					n := x.Type().Underlying().(*types.Pointer).Elem().Underlying().(*types.Array).Len()
+					have := minOf(lenBounds(x.Block(), x.X))
+					if sl, ok := x.X.(*ssa.Slice); ok {
+						lo, okl := constIntOrNil(sl.Low)
+						hi, okh := constIntOrNil(sl.High)
+						if okl && okh && sl.High != nil && hi-lo > have {
+							have = hi - lo
+						}
+					}
+					if k, ok := makeSliceLen(x.X); ok && k > have {
+						have = k
+					}
+					if have >= n {
+						st.ok, st.why = true, "slice of at least the array length converted to an array"
+					} else {
+						st.detail = fmt.Sprintf("conversion of %s to an array of %d elements without an established length", x.X.Name(), n)
+					}
+					add(st)
 				case *ssa.BinOp:
 					if x.Op == token.QUO || x.Op == token.REM {
 						if isIntType(x.Type()) {
